@@ -14,6 +14,7 @@ from c16 import FuseClient, FuseError, OP, parse_entry_out, FUSE_NO_OPEN_SUPPORT
 PROP = 'C18'
 SIZES0 = [0, 1, 4095, 4096, 10 ** 6, 2 ** 32 + 1]          # the last one is sparse: sizes beyond u32
 FUSE_WRITEBACK_CACHE, FUSE_HANDLE_KILLPRIV_V2 = 1 << 16, 1 << 28
+NAMES = [b'f0', b'...', b'f2', b'..f3', b'f4', b'..data']    # some names start with dots: ordinary files
 O_TRUNC, O_APPEND, O_EXCL, O_NONBLOCK = 0o1000, 0o2000, 0o200, 0o4000
 FATTR_MODE, FATTR_SIZE = 1, 8
 EPERM, EBADF, EINVAL = 1, 9, 22
@@ -31,7 +32,7 @@ class Inst:
         self.root, self.seal, self.no_open, self.kind = root, seal, no_open, kind
         shutil.rmtree(root, ignore_errors=True); os.makedirs(root)
         for i, sz in enumerate(SIZES0):
-            with open(os.path.join(root, 'f%d' % i), 'wb') as f: f.truncate(sz)
+            with open(os.path.join(root.encode(), NAMES[i]), 'wb') as f: f.truncate(sz)
         self.cl = FuseClient(os.path.join(bindir, 'seal')); self.cl.verb = verb
         if kind == 'passthrough': self.cl.new('passthrough root=%s seal_size=%d no_open=%d cache_always=%d %s' % (root, seal, no_open, no_open, opts))
         else: self.cl.new('vfs seal_size=%d no_open=%d cache_always=%d %s mount=/=%s' % (seal, no_open, no_open, opts, root))
@@ -40,15 +41,15 @@ class Inst:
         if neg & want != want: raise FuseError('negotiation failed: wanted %#x got %#x (%s)' % (want, neg, opts))
         self.nodes = []
         for i in range(len(SIZES0)):
-            err, ent = self.cl.lookup(1, b'f%d' % i)
+            err, ent = self.cl.lookup(1, NAMES[i])
             if err: raise FuseError('lookup f%d -> %d' % (i, err))
             self.nodes.append(ent['nodeid'])
         self.fh = {}          # slot -> real fh
     def sizes(self):
-        return [os.stat(os.path.join(self.root, 'f%d' % i)).st_size for i in range(len(SIZES0))]
+        return [os.stat(os.path.join(self.root.encode(), NAMES[i])).st_size for i in range(len(SIZES0))]
     def reset_sizes(self, szs):
         for i, sz in enumerate(szs):
-            p = os.path.join(self.root, 'f%d' % i)
+            p = os.path.join(self.root.encode(), NAMES[i])
             if os.stat(p).st_size != sz: os.truncate(p, sz)
     def close(self):
         self.cl.close(); shutil.rmtree(self.root, ignore_errors=True)
@@ -59,7 +60,7 @@ class Inst:
             rep = cl.msg(OP['OPEN'], self.nodes[r['file']], struct.pack('<II', r['flags'], r.get('ofuse', 0)))
             if isinstance(rep, tuple) and rep[0] == 0: self.fh[r['slot']] = struct.unpack('<Q', rep[1][:8])[0]
         elif k == 'create':
-            rep = cl.msg(OP['CREATE'], 1, struct.pack('<IIII', r['flags'], 0o644, 0, r.get('ofuse', 0)) + b'f%d\0' % r['file'])
+            rep = cl.msg(OP['CREATE'], 1, struct.pack('<IIII', r['flags'], 0o644, 0, r.get('ofuse', 0)) + NAMES[r['file']] + b'\0')
             if isinstance(rep, tuple) and rep[0] == 0:
                 if not self.no_open: self.fh[r['slot']] = struct.unpack('<Q', rep[1][128:136])[0]
                 cl.forget(parse_entry_out(rep[1])['nodeid'], 1)
